@@ -104,10 +104,6 @@ void h_bmod1D(void) {
   g_dense0_r = DENSE(g_c, g_r); g_dense0_q = DENSE(g_c, in_lsub[g_lptr + g_q]);
   /* the compared pre-state values are numbers (NaN != NaN would make "kept" unprovable) */
   REQ(values_numbers, g_dense0_r == g_dense0_r && g_dense0_q == g_dense0_q && in_lusup[g_p] == in_lusup[g_p]);
-#if ZEROL
-  /* special values: every stored entry of the supernode is 0.0 and column g_c of dense[] is finite: then every update term is 0 */
-  REQ(zero_supernode, FA(z1, LUC, (g_xf <= z1 && z1 < SNODE_END) ==> in_lusup[z1] == 0.0) && FA(z2, M, z2 < in_m ==> (-1e30 <= DENSE(g_c, z2) && DENSE(g_c, z2) <= 1e30)));
-#endif
   g_lu0 = in_lusup[g_p]; g_lsub0 = in_lsub[g_l]; g_repfnz0 = in_repfnz[g_c*in_m + g_x]; g_xlsub0 = in_xlsub[g_x]; g_xlsub_end0 = in_xlsub_end[g_x]; g_xlusup0 = in_xlusup[g_x];
   g_unused0[0] = in_panel_lsub[g_c*in_m + g_x]; g_unused0[1] = in_spa_marker[g_c*in_m + g_x]; g_unused0[2] = in_w_lsub_end[g_c];
 
@@ -128,11 +124,6 @@ void h_bmod1D(void) {
   /* C02: in the hand-unrolled cases (segsze 1,2,3) the first entry of the segment is the top of a unit lower triangular solve: it is
    * read, never written -- in particular not by the final scatter of the (unused, all-zero) TriTmp slot */
   ENS(unrolled_first_row_kept, !(ACTIVE(g_c) && SEGSZE(g_c) <= 3 && g_q == NOZEROS(g_c)) || DENSE(g_c, in_lsub[g_lptr + g_q]) == g_dense0_q);
-#if ZEROL
-  /* C02: with an all-zero supernode the hand-unrolled update is the identity on the whole column (x - u*0 == x): the solved segment
-   * produced by the unrolled formulas is what dense[] holds on exit -- the final scatter loop leaves columns with segsze <= 3 alone */
-  ENS(unrolled_zero_update_is_identity, !(ACTIVE(g_c) && SEGSZE(g_c) <= 3) || DENSE(g_c, g_r) == g_dense0_r);
-#endif
   ENS(tempv_zero_on_exit, in_tempv[g_t] == 0.0);
 #endif
   /* frame: the supernode, the index structures and the unused SCATTER_FOUND arrays are not written */
